@@ -222,22 +222,63 @@ def an_C08_paths(mod, name, paths, fq):
             for tag, term in order:
                 if tag not in whole:
                     bad = 'a path shown comes from a lookup list that is not the whole window\'s'
-            # indices must be 0, 1, 2 ... in order of appearance (a path may be shown conditionally)
-            idxs = []
+            # the k-th path shown is the k-th lookup of the window (positions proved under the path condition);
+            # contracts/decoders.py: C08_ORDER_ONLY lists the two decoders that only have to keep lookup order
+            from contracts.decoders import C08_ORDER_ONLY
+            shown = []            # per path atom: [(guard, position term)] - under the guard the atom shows that lookup
             for tag, term in order:
-                txt = term.sexpr()
-                import re
-                m = re.findall(r'%s\.path (\d+)\)' % re.escape(tag), txt)
-                idxs.append(sorted(set(int(x) for x in m)))
-            flat = [i[0] for i in idxs if i]
-            if name != 'BSC_posix_spawn' and flat != sorted(flat):
-                bad = 'paths are not shown in lookup order: %s' % flat
+                shown.append(_guarded_positions(term, tag + '.path'))
+            hyp = list(s.pc) + list(conds)
+            for k, alts_k in enumerate(shown):
+                earlier = z3.Sum([z3.If(z3.Or([g for g, _ in shown[i]]), 1, 0) for i in range(k)]) if k else z3.IntVal(0)
+                for g, t_ in alts_k:
+                    if name in C08_ORDER_ONLY:
+                        for i in range(k):
+                            for g1, t1 in shown[i]:
+                                if DCK.feasible(hyp + [g1, g, z3.Not(t1 < t_)]):
+                                    bad = 'paths are not shown in lookup order: lookup %s then lookup %s' % (z3.simplify(t1), z3.simplify(t_))
+                    elif DCK.feasible(hyp + [g, t_ != earlier]):
+                        bad = 'path argument %d is not the next lookup of the window (lookup %s) but lookup %s' % (k, z3.simplify(earlier), z3.simplify(t_))
     if not saw:
         return []
     if bad is None:
         return [DCK.rec(ob, 'proved', 'symbolic execution: path tokens are lookups of the whole window in order', 0, fq)]
     return [DCK.rec(ob, 'refuted', 'symbolic execution', 0, fq, bad, viol={'request': {'kind': 'lookup_search', 'budget': 300, 'decoder': name},
                                                                             'what': '%s: %s' % (name, bad), 'solver_output': bad})]
+
+
+def _guarded_positions(t, fname):
+    """[(guard, index term)] for every application fname(index) inside the if-then-else tree t"""
+    out = []
+
+    def walk(x, guard):
+        if z3.is_app(x) and x.decl().kind() == z3.Z3_OP_ITE:
+            c = x.arg(0)
+            walk(x.arg(1), guard + [c])
+            walk(x.arg(2), guard + [z3.Not(c)])
+            return
+        if z3.is_app(x) and x.decl().kind() == z3.Z3_OP_UNINTERPRETED and x.decl().name() == fname and x.num_args() == 1:
+            out.append((z3.And(guard) if guard else z3.BoolVal(True), x.arg(0)))
+            return
+        for a in _apps(x):
+            if a.decl().name() == fname:
+                out.append((z3.And(guard) if guard else z3.BoolVal(True), a.arg(0)))
+    walk(t, [])
+    return out
+
+
+def _apps(t):
+    out, seen, st = [], set(), [t]
+    while st:
+        x = st.pop()
+        if x.get_id() in seen:
+            continue
+        seen.add(x.get_id())
+        if z3.is_app(x):
+            if x.decl().kind() == z3.Z3_OP_UNINTERPRETED and x.num_args() == 1:
+                out.append(x)
+            st.extend(x.children())
+    return out
 
 
 def lookup_filter_ok(arg, s):
